@@ -533,6 +533,44 @@ class Unmergeable(Exception):
     pass
 
 
+TAINT_PREFIXES = ('P0', 'D0', 'P1', 'D1', 'prec_to_dps', 'dps_to_prec', 'TAG')
+
+
+def tainted(x):
+    """does the value's term mention the tracked symbolic state?  (cached DFS over the z3 term)"""
+    if not isinstance(x, SInt):
+        return False
+    cache = G.stats.setdefault('_taint', {})
+    root = x.t
+    rid = root.get_id()
+    if rid in cache:
+        return cache[rid]
+    stack = [root]
+    seen = []
+    res = False
+    while stack:
+        t = stack.pop()
+        tid = t.get_id()
+        if tid in cache:
+            if cache[tid]:
+                res = True
+                break
+            continue
+        seen.append(tid)
+        if z3.is_app(t):
+            if t.num_args() == 0 or t.decl().kind() == z3.Z3_OP_UNINTERPRETED:
+                nm = t.decl().name()
+                if nm.startswith(TAINT_PREFIXES):
+                    res = True
+                    break
+            stack.extend(t.children())
+    if not res:
+        for tid in seen:
+            cache[tid] = False
+    cache[rid] = res
+    return res
+
+
 def merge(c, a, b):
     """value = a if c else b   (c: z3 Bool)"""
     if a is b:
@@ -551,6 +589,11 @@ def merge(c, a, b):
         return mk_bool(z3.If(c, zb(a), zb(b)))
     if isinstance(a, (SInt, int, SBool)) and isinstance(b, (SInt, int, SBool)):
         (alo, ahi), (blo, bhi) = bounds(a), bounds(b)
+        if G.ABSTRACT and not (isinstance(a, int) and isinstance(b, int) and a == b):
+            # abstract mode: only values derived from the tracked state (precision) keep an exact ite; everything else
+            # is joined to an Unknown (which is viewed as a fresh integer when used as one) so that terms stay small
+            if not (tainted(a) or tainted(b)):
+                return Unknown('join')
         return mk_int(z3.If(c, zt(a), zt(b)), min(alo, blo), max(ahi, bhi))
     if not has_sym(a) and not has_sym(b):
         try:
